@@ -889,6 +889,10 @@ def normalize_chunks(chunks, shape=None, limit=None, dtype=None, previous_chunks
     if allints or isinstance(sum(sum(_) for _ in chunks), int):
         # Fastpath for when we already know chunks contains only integers
         return tuple(tuple(ch) for ch in chunks)
+    if any(not math.isnan(x) and x != int(x) for c in chunks for x in c):
+        # int() below would cut the fractional part off every block, and the
+        # blocks would no longer add up to the shape checked just above.
+        raise ValueError(f"Chunk sizes must be whole numbers. Got chunks={chunks}")
     return tuple(tuple(int(x) if not math.isnan(x) else np.nan for x in c) for c in chunks)
 
 
